@@ -325,9 +325,28 @@ def correspond(ctx):
                                   f"class accepts + its default manager; {reps} streams per pair (3x for the default manager)")
 
 
+def ctx_known(ctx, v):
+    return any(k.get("property") == "C10" and k.get("status", "open") == "open" and k["key"] == v["key"] for k in vlib.load_known())
+
+
 def search(ctx):
     rng = ctx.rng
     lines, expect = [], []
+    # leads first: the (manager kind, utility style, parameters) on which model and implementation disagreed
+    leads = []
+    for d in ctx.disagreements:
+        sp = (d.get("case") or {}).get("spec") or {}
+        if sp.get("kind") in S.CHUNK_INVARIANT and (sp["kind"], sp.get("style")) not in [(k, st) for k, st, _ in leads]:
+            leads.append((sp["kind"], sp.get("style"), sp.get("params")))
+    for kind, style, params in leads[:8]:
+        for _ in range(60):
+            ctx.count("search_lead_cases")
+            spec = S.gen_case(rng, kind, boundary=rng.random() < 0.5, n=rng.randint(4, 30), style=style if kind not in S.BASELINE_KINDS else None)
+            if params is not None and rng.random() < 0.5:
+                spec["params"] = params
+            chunk_pair(ctx, lines, expect, spec, rng)
+            if [v for v in ctx.violations if "chunk-dependence" not in v["key"] and not ctx_known(ctx, v)]:
+                return
     for _ in range(100):
         for kind in S.MANAGER_KINDS + S.BASELINE_KINDS:
             manager_case(ctx, lines, expect, S.gen_case(rng, kind, n=rng.randint(2, 40)))
